@@ -4,6 +4,9 @@ Leg D: spec/Session/Sess.tla (property layer: jars, server store, issued client 
        variables left/dead/seen) explored by TLC per (location x expire x jar policy): invariants
        Carry NoForeign Dead SidForm Exposed JarLeft, action properties FreshSid Unusable
        DeadlineFixed DeadlineRenew.
+       spec/Session/SessImpl.tla (mechanism layer: save()'s early returns, session_sid, session_dual switch,
+       update_exposed) checked against Sess; Faithful=TRUE reproduces the two deviations of the unchanged tree
+       as counter-examples, Faithful=FALSE (repaired design) satisfies every invariant.  Drift only, never a violation.
 Leg B: harness/session/sess_drv.cpp drives the real session_interface / session_sid / session_dual /
        session_cookies / memory+file storage through the public external-session API (cookie adapter =
        the browser's jar, adversarial or polite) under a fake clock; every recorded history must be a
@@ -32,11 +35,14 @@ def run(ctx):
         cfg = sesslib.write_cfg(ctx, name, consts)
         ctx.design("Session/Sess.tla", cfg, workers=16 if not q else 8, timeout=240 if q else 1500, heap="12g",
                    deadlock_off=True, note=name)
+    if "D" in legs:
+        sesslib.run_impl(ctx)
     # ------------------------------------------------------------------ Leg B
     exe = ctx.harness("sess_drv", ["session/sess_drv.cpp"])
     jobs = sesslib.binding_runs(q)
     if os.environ.get("VERIF_C06_JOBS"):                   # development aid: regex over "label arg arg ..."
         jobs = [j for j in jobs if re.search(os.environ["VERIF_C06_JOBS"], j[0] + " " + " ".join(map(str, j[1])))]
+    sesslib.selftest(ctx, exe)
     sesslib.run_binding(ctx, exe, jobs)
     ctx.extra["rule"] = ("executions = Reset-delimited request histories run against the real session code; events = trace lines "
                          "accepted by TLC; distinct = distinct (event, operation, outcome-class) signatures seen in the traces")
